@@ -757,7 +757,7 @@ impl LowerWithEnv for Ty {
                     TypeLookup::Opaque(id) => tykind!(env.opaque_kind(id), OpaqueType, id),
                     TypeLookup::Coroutine(id) => tykind!(env.coroutine_kind(id), Coroutine, id),
                     TypeLookup::Foreign(_) | TypeLookup::Trait(_) => {
-                        panic!("Unexpected apply type")
+                        return Err(RustIrError::NotStruct(name.clone()))
                     }
                 }
             }
